@@ -197,7 +197,8 @@ def _verus_reader_unary(prop: str, fns=("read_unary", "skip_bits"), lemmas=True)
     return out
 
 
-BRU_LEMMAS = ("lemma_sbit_word", "lemma_wbit_bb", "lemma_lz_bb", "lemma_tz_bb", "lemma_shl_bits", "lemma_shr_bits")
+BRU_LEMMAS = ("lemma_sbit_word", "lemma_wbit_bb", "lemma_lz_bb", "lemma_tz_bb", "lemma_shl_bits", "lemma_shr_bits", "lemma_small", "lemma_shl_shr", "lemma_or64",
+              "lemma_result", "lemma_rb_be_single", "lemma_rb_be_double", "lemma_rb_le_single", "lemma_rb_le_double")
 
 
 RB_FNS = {"read_bits": "read_bits", "peek_bits": "peek_bits", "skip_bits_after_peek": "skip_bits_after_peek", "refill": "refill",
@@ -235,6 +236,9 @@ def _verus_bitreader_unary(prop: str, lemmas=True) -> List[Obl]:
         out.append(Obl(id=f"{pl}.verus.bitreader.read_unary.{E}", prop=prop, engine="verus", target=f"bitreader_unary:read_unary_{el}",
                        fns=[f"BitReader<{E},_>::read_unary"],
                        note="real text; every position, every stream shorter than 2^64 bits, unbounded word loop"))
+        out.append(Obl(id=f"{pl}.verus.bitreader.read_bits.{E}", prop=prop, engine="verus", target=f"bitreader_unary:read_bits_{el}",
+                       fns=[f"BitReader<{E},_>::read_bits"],
+                       note="real text; every position and width: value < 2^n, field = the next n stream bits, position + n"))
     if lemmas:
         for l in BRU_LEMMAS:
             out.append(Obl(id=f"{pl}.verus.bitreader.{l}", prop=prop, engine="verus", target=f"bitreader_unary:{l}", fns=[]))
